@@ -39,7 +39,7 @@ Definition xspec_step (s : list Z * list Z) (o : xop) : option ((list Z * list Z
       mut t ((0 <=? n) && (n <=? capacity)) (repeat 0 (Z.to_nat n)) (n :: repeat 0 (Z.to_nat n))
   | CtorNVal t n x =>
       mut t ((0 <=? n) && (n <=? capacity)) (repeat x (Z.to_nat n)) (n :: repeat x (Z.to_nat n))
-  | CtorRange t xs => mut t (len xs <=? capacity) xs (len xs :: xs)
+  | CtorRange t xs | CtorArr t xs => mut t (len xs <=? capacity) xs (len xs :: xs)
   | CopyIndep t d x =>
       let l := ssel t s in
       let m := lmutate capacity l x in
